@@ -75,12 +75,15 @@ def census(text, metas=()):
 
 def run_group(name, outdir, rlimit=None, canary_calls=None, timeout=600):
     t0 = time.time()
-    res = dict(group=name, status='undecided', reason='', functions=[], failures=[], units=[], rewrites=0,
+    # soft = the verifier could not be asked because the code changed shape (lost anchor, construct outside the supported subset);
+    # hard = the verifier was asked and gave no verdict (rlimit, crash) or a guard failed
+    res = dict(group=name, status='undecided', soft=False, reason='', functions=[], failures=[], units=[], rewrites=0,
                census=[], wall_s=0.0, solver='z3 (bundled with Verus 0.2026.09.13)')
     try:
         path, metas, log, g = extract.build_group(name, outdir)
     except ExtractError as e:
         res['reason'] = 'extraction: %s' % e
+        res['soft'] = True
         res['wall_s'] = time.time() - t0
         return res
     except (OSError, KeyError, ValueError) as e:
@@ -171,6 +174,7 @@ def run_group(name, outdir, rlimit=None, canary_calls=None, timeout=600):
         res['reason'] = 'verus produced no result (exit %s): %s' % (p.returncode, p.stderr[-400:])
         return res
     if hard:
+        res['soft'] = not any(h.startswith('rlimit') for h in hard)
         res['reason'] = 'not a verification verdict: ' + ' | '.join(hard[:3])
         res['failures'] = []       # cannot trust partial verdicts from a file that does not type-check
         return res
@@ -188,6 +192,10 @@ def run_group(name, outdir, rlimit=None, canary_calls=None, timeout=600):
         if m.get('kind') == 'fn' and m.get('mode') == 'body':
             if not any(n == m['fn'] or n.endswith('::' + m['fn']) for n in names):
                 missing.append(m['id'])
+        if m.get('kind') == 'block' and m.get('mode') == 'body':
+            for fn in m.get('fns', []):
+                if not any(n == fn or n.endswith('::' + fn) for n in names):
+                    missing.append(m['id'] + '.' + fn)
     if missing and not res['failures']:
         res['reason'] = 'vacuity guard: no solver query was generated for unit(s) %s' % missing
         return res
